@@ -206,7 +206,28 @@ fn expected_log(h: &History) -> Vec<(usize, Vec<Obs>)> {
     out
 }
 
-fn gen_key(rng: &mut Rng, host: bool) -> K {
+/// Keys of different kinds whose full 32-bit key hashes are equal (the table's hasher is 32-bit
+/// FNV-1a over the i64 / the f64's bits / the string's bytes followed by 0xff; found once by
+/// inverting the hash, see DESIGN 13.5 fifth round): only key equality tells them apart.
+const FULL_HASH_FAMILIES: [(i64, u64, &str); 5] = [
+    (-1, 0x3ff20000c81416a1, "aobmojyx"),
+    (0, 0x3ff20000094785bc, "amqdcpxw"),
+    (1, 0x400400003c95f7c1, "aaqpdkqs"),
+    (2, 0x40300000b1c2cc3f, "amxjpwzd"),
+    (5, 0x401080009be86771, "azzsmrwj"),
+];
+
+fn gen_key(rng: &mut Rng, host: bool, family: Option<usize>) -> K {
+    if let Some(f) = family {
+        if rng.chance(3, 5) {
+            let (i, bits, s) = FULL_HASH_FAMILIES[f];
+            return match rng.below(3) {
+                0 => K::Int(i),
+                1 => K::Real(f64::from_bits(bits)),
+                _ => K::Str(s.to_string()),
+            };
+        }
+    }
     if !host && rng.chance(1, 8) {
         return K::Fun(rng.below(3) as u8);
     }
@@ -234,6 +255,7 @@ fn gen_history(rng: &mut Rng, host: bool) -> History {
     let mut alias = vec![];
     let mut vn = 0i64;
     let style = rng.below(4);
+    let family = if rng.chance(1, 5) { Some(rng.usize(FULL_HASH_FAMILIES.len())) } else { None };
     for _ in 0..n {
         let t = rng.usize(tables);
         let w: [u32; 8] = match style {
@@ -243,8 +265,8 @@ fn gen_history(rng: &mut Rng, host: bool) -> History {
             _ => [20, 15, 20, 20, 8, 8, 4, 5],
         };
         let op = match rng.weighted(&w) {
-            0 => Op::Set(t, gen_key(rng, host), gen_val(rng, &mut vn)),
-            1 => Op::Get(t, gen_key(rng, host)),
+            0 => Op::Set(t, gen_key(rng, host, family), gen_val(rng, &mut vn)),
+            1 => Op::Get(t, gen_key(rng, host, family)),
             2 => Op::Append(t, gen_val(rng, &mut vn)),
             3 => Op::Pop(t),
             4 => Op::Len(t),
@@ -252,7 +274,7 @@ fn gen_history(rng: &mut Rng, host: bool) -> History {
             6 => Op::ForEach(t),
             _ => {
                 if host {
-                    Op::Remove(t, gen_key(rng, host))
+                    Op::Remove(t, gen_key(rng, host, family))
                 } else {
                     Op::Len(t)
                 }
